@@ -34,6 +34,26 @@ pub fn run(suite: &str, a: &[&str]) -> Option<String> {
             let e = Ellipse::new(crate::util::pt(a[0], a[1]), Size::new(crate::util::u(a[2]), crate::util::u(a[3])));
             crate::util::sb(e.contains(crate::util::pt(a[4], a[5]))).to_string()
         }
+        // C08 part: does building the scanline iterator (confine, four EllipseQuadrants, RoundedRectangleContains::new) and
+        // walking it overflow anywhere?  (harness profile: overflow checks + debug assertions on)  model: rr_arith_ok
+        "ok_rr_new" => {
+            let r = rr(a);
+            // Points::new -> Scanlines::new -> RoundedRectangleContains::new (confine + the four quadrants); no point is pulled
+            let res = std::panic::catch_unwind(|| { let _it = r.points(); });
+            if res.is_ok() { "OK".to_string() } else { "PANIC".to_string() }
+        }
+        // only the top-left radius is non-zero and the probe lies in the top-left corner box: contains() builds everything and
+        // evaluates exactly the top-left EllipseQuadrant::contains.   ok_rr_contains_tl x y w h a b px py
+        "ok_rr_contains_tl" => {
+            use crate::util::{i, u};
+            let r = RoundedRectangle::new(
+                Rectangle::new(Point::new(i(a[0]), i(a[1])), Size::new(u(a[2]), u(a[3]))),
+                CornerRadii { top_left: Size::new(u(a[4]), u(a[5])), ..CornerRadii::new(Size::zero()) },
+            );
+            let p = Point::new(i(a[6]), i(a[7]));
+            let res = std::panic::catch_unwind(|| r.contains(p));
+            if res.is_ok() { "OK".to_string() } else { "PANIC".to_string() }
+        }
         "rr_ellipse_map" => {
             let rect = crate::util::rc(a[0], a[1], a[2], a[3]);
             let e = Ellipse::new(rect.top_left, rect.size);
